@@ -206,6 +206,50 @@ func c13Case(c *core.Ctx, idx int) {
 	if c.Thorough() {
 		nv = 32
 	}
+	var walked, rendered [][]byte
+	defer func() {
+		// several goroutines walking different messages through the one shared Descriptor, each with
+		// its own outputter, get what a walk alone gives
+		if idx%4 != 3 || len(walked) < 2 {
+			return
+		}
+		const g, rounds = 4, 5
+		var wg sync.WaitGroup
+		fails := make([]string, g)
+		start := make(chan struct{})
+		for w := 0; w < g; w++ {
+			wg.Add(1)
+			go func(w int) {
+				defer wg.Done()
+				var jo plenccodec.JSONOutput
+				<-start
+				for k := 0; k < rounds*len(walked) && fails[w] == ""; k++ {
+					i := (k + w) % len(walked)
+					var err error
+					var out []byte
+					pn := core.Guard(func() {
+						jo.Reset()
+						if err = d.Read(&jo, walked[i]); err == nil {
+							out = jo.Done()
+						}
+					})
+					if err != nil || pn != "" || !bytes.Equal(out, rendered[i]) {
+						fails[w] = fmt.Sprintf("goroutine %d, bytes %s: %v %s\n  alone      %q\n  concurrent %q", w, hexHead(walked[i]), err, trunc1(pn), trunc1(string(rendered[i])), trunc1(string(out)))
+					}
+				}
+			}(w)
+		}
+		close(start)
+		wg.Wait()
+		rec.Eval(g * rounds * len(walked))
+		rec.Count("concurrent_walks", g*rounds*len(walked))
+		for _, f := range fails {
+			if f != "" {
+				rec.Violation("concurrent-walks", fmt.Sprintf("[%s] %d goroutines walking through one Descriptor at once: %s\n  type %s", tc.name, g, f, typeString(tc.typ)), caseExtra(tc, reflect.Value{}, nil))
+				return
+			}
+		}
+	}()
 	for j := 0; j < nv; j++ {
 		vg := &gen.VG{R: rv, C: tc.cfg, Budget: 200, Finite: true, NoNegFlat: true, ValidUTF8: true}
 		v := vg.Value(tc.typ, "")
@@ -257,6 +301,7 @@ func c13Case(c *core.Ctx, idx int) {
 				return
 			}
 		}
+		walked, rendered = append(walked, data), append(rendered, out)
 		var out3 []byte
 		var err3 error
 		pn3 := core.Guard(func() {
@@ -295,7 +340,7 @@ func init() {
 		ID:        "C13",
 		Technique: "descriptor-walk monitor: JSON produced by the real Descriptor.Read + JSONOutput from Marshal's output, parsed by encoding/json and matched against the generated value in the JSON data model; repeated with the Descriptor restored through plenc and through encoding/json",
 		Rule: "default configuration; generated non-recursive types (no proto option) x boundary-biased values with finite floats, times within years 1..9999, valid-UTF-8 strings and non-negative narrow flat ints: slices of every element kind incl. bool/time/empty elements and nil pointers, string-keyed maps with zero values and empty keys, other maps with zero entries, pointers, null.*, JSON any with nulls. " +
-			"The output must parse, match the value (omitted fields may be absent, numbers exact), and be byte-identical for the two restored descriptors and for one process-long JSONOutput that is Reset before every walk. distinct = (type, value-shape) hashes with non-zero content",
+			"The output must parse, match the value (omitted fields may be absent, numbers exact), and be byte-identical for the two restored descriptors and for one process-long JSONOutput that is Reset before every walk; every fourth case ends with 4 goroutines walking the case's messages through the one Descriptor at once. distinct = (type, value-shape) hashes with non-zero content",
 		Assume: []string{"known findings D20 (recursive types) and D21 (negative narrow flat ints) are excluded from generation", "encoding/json as the independent parser"},
 		Plan: func(tier string) []core.Lane {
 			if tier == "thorough" {
